@@ -4,7 +4,11 @@ EdgeInf::firstBlocker / Router::newBlockingShape as a fold of the cpp2v-generate
 edge is properly crossed, refuted on degenerate chords; reference router returns visible paths only).
 tie: T (Gen/Geometry.v regenerated every run) + V: the extracted route_ok runs on the real displayRoute() of every connector
 (both routing modes, buffer 0 and > 0, nudging on) over a generic-position stream and a separate degenerate stream.
-A failing route whose every offending segment satisfies the extracted classifier degenerate_chord is the known finding F-b."""
+A failing route whose every offending segment satisfies the extracted classifier degenerate_chord is the known finding F-b.
+Two further families: "contains" (multi-transaction histories in which an endpoint starts strictly inside a shape that then leaves
+it; route_ok with the containment exemption evaluated on the CURRENT polygons after every processTransaction) and "hyperedge"
+(free junction + 3-5 orthogonal connectors, obstacles near the trunks, both hyperedge-improvement options, with / without nudging;
+the exemption-free core segs_clear on every connector's displayRoute, junction ends at position() or recommendedPosition())."""
 import os, json, hashlib
 from vlib import common as C
 from checks import avoid_lib as A
@@ -123,6 +127,235 @@ def check_cases(res, exe, drv, cases, stats, samples):
         stats['violations'] += 1
 
 
+# "contains" family: (name, mode, segmentPenalty, idealNudgingDistance, transactions); orthogonal mode: rectangles only
+CONTAINS_CONFIGS = [('contains-poly-pen0-trans', 0, 0, 0, 1), ('contains-poly-pen10-notrans', 0, 10, 0, 0),
+                    ('contains-orth-nudge4-trans', 1, 10, 4, 1), ('contains-orth-nonudge-notrans', 1, 10, 0, 0)]
+FP_DISPLACED = 'hyperedge_free_terminal_displaced'
+FH_ASSERT = 'orthogonalDirectionsCount(thisDirs) > 0'       # C11 known finding assert:makepath.cpp:orthogonalDirectionsCount (DESIGN 6 F-h)
+
+
+def hist_script(h, upto=None):
+    ops = h['ops'] if upto is None else h['ops'][:upto]
+    return ['R %d %s 0.0 %s %d' % (h['mode'], repr(float(h['pen'])), repr(float(h['nudge'])), h['trans'])] + [A.hist_op_str(o) for o in ops] + ['X']
+
+
+def check_histories(res, exe, drv, hists, stats, samples):
+    """contains family: every history runs on ONE router; after every processTransaction every displayRoute must pass route_ok
+    on the scene of that moment (shapes that contain an endpoint NOW are exempt, shapes that used to are not)."""
+    lines = []
+    for h in hists:
+        lines += hist_script(h)
+    runs, rc, err = A.run_harness(exe, lines)
+    if rc != 0 or len(runs) != len(hists):
+        for h in hists:
+            r1, rc1, err1 = A.run_harness(exe, hist_script(h))
+            if rc1 != 0 or len(r1) != 1:
+                res.violation({'what': 'harness crashed on a history of the contains family', 'rc': rc1, 'stderr': err1[-1500:], 'script': hist_script(h),
+                               'replay': 'feed "script" lines to build/bin/c03_route-exc-*'})
+                return
+        res.violation({'what': 'harness batch failed but every single history ran', 'rc': rc, 'stderr': err[-1500:]}, no_input=True)
+        return
+    queries, meta = [], []
+    for h, run in zip(hists, runs):
+        ppos = [i for i, o in enumerate(h['ops']) if o[0] == 'P']
+        if run['exc'] is not None or len(run['dumps']) != len(ppos):
+            res.violation({'what': 'assertion / exception inside libavoid on a legal history (contains family)', 'exception': run['exc'],
+                           'script': hist_script(h), 'config': h['cfg'], 'replay': 'feed "script" lines to build/bin/c03_route-exc-*'})
+            stats['exceptions'] += 1
+            continue
+        shapes, conns = {}, {}
+        was_inside = {}          # (connector, end) -> ids of shapes that strictly contained that end at an earlier dump (end unmoved since)
+        k = 0
+        stats['contains_histories'] += 1
+        for i, o in enumerate(h['ops']):
+            if o[0] != 'P':
+                shapes, conns = A.hist_apply(shapes, conns, o)
+                if o[0] == 'E':
+                    was_inside.pop((o[1], o[2]), None)
+                continue
+            d = run['dumps'][k]
+            k += 1
+            ids = sorted(shapes)
+            polys = [shapes[j] for j in ids]
+            rpolys = {j: [(int(x), int(y)) for x, y in P] for j, P in d['shapes'].items()}
+            if rpolys != {j: [tuple(q) for q in shapes[j]] for j in ids}:
+                res.violation({'what': 'the router\'s shapes differ from the scene the history describes (contains family; see C06)',
+                               'router': rpolys, 'expected': shapes, 'script': hist_script(h, i + 1), 'config': h['cfg']})
+                break
+            for c in sorted(conns):
+                st = conns[c]
+                left = False
+                for e in (0, 1):
+                    now = set(j for j in ids if A.inside_strict(shapes[j], st[e]))
+                    if was_inside.get((c, e), set()) - now:
+                        left = True
+                    was_inside.setdefault((c, e), set()).update(now)
+                route = d['disp'].get(c, [])
+                queries.append(A.q_chk(polys, st[0], st[1], route))
+                meta.append((h, i, d, c, st[0], st[1], polys, route, left, bool(any(A.inside_strict(P, st[0]) or A.inside_strict(P, st[1]) for P in polys))))
+    ans = A.run_driver(drv, queries)
+    for a, (h, i, d, c, s, t, polys, route, left, inside_now) in zip(ans, meta):
+        stats['routes'] += 1
+        stats['contains_routes'] += 1
+        stats['by_config'][h['cfg']] = stats['by_config'].get(h['cfg'], 0) + 1
+        if inside_now:
+            stats['contains_endpoint_inside_now'] += 1
+        if left:
+            stats['contains_shape_left_endpoint'] += 1
+            if len(route) > 2:
+                stats['contains_shape_left_endpoint_bent'] += 1
+        if len(route) > 2:
+            stats['nontrivial'].add(hashlib.sha256(repr((h['cfg'], polys, s, t)).encode()).hexdigest())
+        if left and len(route) > 2 and not any(x.get('family') == 'contains' for x in samples):
+            samples.append({'family': 'contains', 'config': h['cfg'], 'history': [A.hist_op_str(o) for o in h['ops'][:i + 1]], 'shapes_now': polys,
+                            'src': s, 'dst': t, 'displayRoute': route, 'route_ok': a})
+        off = A.parse_chk(a)
+        if not off:
+            continue
+        obj = {'what': 'displayRoute fails the verified checker route_ok on the CURRENT scene (contains family: a shape is exempt only while it '
+                       'contains an endpoint now)', 'family': 'contains', 'config': h['cfg'], 'mode': h['mode'], 'segmentPenalty': h['pen'],
+               'idealNudgingDistance': h['nudge'], 'transactions': h['trans'], 'history': [A.hist_op_str(o) for o in h['ops'][:i + 1]],
+               'shapes': polys, 'connector': c, 'src': s, 'dst': t, 'displayRoute': route, 'raw_route': d['route'].get(c),
+               'a_shape_that_contained_an_endpoint_earlier_no_longer_does': left,
+               'offenders_(segment,shape,degenerate_chord)': off, 'script': hist_script(h, i + 1),
+               'replay': './check C03 --replay <this file>  (runs "script" on harness/c03_route.cpp and re-checks the last dump)'}
+        if off == [(-1, -1, 0)]:
+            obj['what'] = 'displayRoute has fewer than two points or does not start/end at the attachment points (contains family)'
+            res.violation(obj)
+            stats['violations'] += 1
+            continue
+        if A.parse_route_answer(A.run_driver(drv, [A.q_plain(polys, s, t)])[0]) is None:
+            stats['no_free_path'] += 1
+            continue
+        raw = d['route'].get(c, [])
+        roff = A.parse_chk(A.run_driver(drv, [A.q_chk(polys, s, t, raw)])[0]) if len(raw) >= 2 else [(-1, -1, 0)]
+        obj['raw_route_offenders_(segment,shape,degenerate_chord)'] = roff
+        if roff and roff != [(-1, -1, 0)] and all(o[2] == 1 for o in roff):
+            stats['known_degenerate_chord'] += 1
+            if not res.violation(obj, fingerprint='degenerate_chord'):
+                continue
+        else:
+            res.violation(obj)
+        stats['violations'] += 1
+
+
+def hyper_judge(sc, d):
+    """-> (problems, queries): route-end problems [(cid, what)] and one CLR query per connector [(cid, route, query)]"""
+    probs, qs = [], []
+    juncs = d.get('juncs', {})
+    for cid, ends in sorted(d.get('hends', {}).items()):
+        route = d['disp'].get(cid, [])
+        if len(route) < 2:
+            probs.append((cid, 'route with fewer than two points', None))
+            continue
+
+        def acc(e):
+            if e[0] == 'J':
+                j = juncs.get(e[1])
+                return [] if j is None else [j['pos'], j['rec']]
+            return [(e[1], e[2])]
+        a0, a1 = acc(ends[0]), acc(ends[1])
+        fwd = route[0] in a0 and route[-1] in a1
+        bwd = route[0] in a1 and route[-1] in a0
+        if not fwd and not bwd:
+            # classifier hyperedge_free_terminal_displaced: improvement on; one end attached to a free point; the route's junction extremity is
+            # at position() / recommendedPosition(); its other extremity is not the terminal but shares x or y with it
+            disp = None
+            if sc['opt'] > 0:
+                for (ej, et, aj, at) in ((ends[0], ends[1], a0, a1), (ends[1], ends[0], a1, a0)):
+                    if ej[0] == 'J' and et[0] == 'P':
+                        for q, r in ((route[0], route[-1]), (route[-1], route[0])):
+                            if q in aj and r != at[0] and (r[0] == at[0][0] or r[1] == at[0][1]):
+                                disp = {'terminal': at[0], 'route_extremity': r}
+            probs.append((cid, 'displaced' if disp else 'route does not run between its two attachments (junction: position() or recommendedPosition())', disp))
+        elif not fwd:
+            probs.append((cid, 'reversed', None))
+        qs.append((cid, route, A.q_clr(sc['shapes'], route)))
+    return probs, qs
+
+
+def check_hyper(res, exe, drv, scenes, stats, samples):
+    lines = []
+    for sc in scenes:
+        lines += A.hyper_script(sc)
+    runs, rc, err = A.run_harness(exe, lines)
+    if rc != 0 or len(runs) != len(scenes):
+        for sc in scenes:
+            r1, rc1, err1 = A.run_harness(exe, A.hyper_script(sc))
+            if rc1 != 0 or len(r1) != 1:
+                res.violation({'what': 'harness crashed on a hyperedge scene', 'family': 'hyper', 'rc': rc1, 'stderr': err1[-1500:], 'scene': sc,
+                               'script': A.hyper_script(sc), 'replay': 'feed "script" lines to build/bin/c03_route-exc-*'})
+                return
+        res.violation({'what': 'harness batch failed but every single hyperedge scene ran', 'rc': rc, 'stderr': err[-1500:]}, no_input=True)
+        return
+    queries, meta = [], []
+    for sc, run in zip(scenes, runs):
+        cfg = 'hyper-%s-opt%d-%s' % (sc['kind'], sc['opt'], 'nudge' if sc['nudge'] else 'nonudge')
+        if run['exc'] is not None or len(run['dumps']) != 1:
+            if run['exc'] and FH_ASSERT in run['exc'] and 'makepath.cpp' in run['exc']:
+                stats['hyper_c11_fh_assertion_skipped'] += 1          # known finding of C11 (F-h), not re-reported here
+                continue
+            res.violation({'what': 'assertion / exception inside libavoid while routing a hyperedge scene', 'family': 'hyper', 'exception': run['exc'],
+                           'scene': sc, 'script': A.hyper_script(sc), 'replay': 'feed "script" lines to build/bin/c03_route-exc-*'})
+            stats['exceptions'] += 1
+            continue
+        d = run['dumps'][0]
+        stats['hyper_scenes'] += 1
+        stats['hyper_by_kind'][cfg] = stats['hyper_by_kind'].get(cfg, 0) + 1
+        if any(j['pos'] != j['rec'] for j in d.get('juncs', {}).values()):
+            stats['hyper_junction_moved'] += 1
+        if len(d.get('juncs', {})) != 1 or len(d.get('hends', {})) != len(sc['terms']):
+            stats['hyper_topology_changed'] += 1
+        probs, qs = hyper_judge(sc, d)
+        for cid, what, disp in probs:
+            if what == 'reversed':
+                stats['hyper_reversed_routes'] += 1          # C11 known finding hyperedge_route_reversed: orientation not required here
+                continue
+            obj = {'what': 'hyperedge connector: ' + what, 'family': 'hyper', 'connector': cid, 'ends': d['hends'].get(cid),
+                   'displayRoute': d['disp'].get(cid), 'junctions': d.get('juncs'), 'scene': sc, 'shapes': sc['shapes'],
+                   'script': A.hyper_script(sc), 'replay': './check C03 --replay <this file>'}
+            if what == 'displaced':
+                obj['what'] = ('hyperedge improvement displaced the free-point terminal of a connector: displayRoute() starts at the junction '
+                               '(recommendedPosition) but its other extremity is not the terminal it is attached to')
+                obj.update(disp)
+                stats['hyper_terminal_displaced'] += 1
+                if stats['hyper_terminal_displaced'] > 2 and not res.known_fingerprint(FP_DISPLACED):
+                    continue                                  # unclassified so far: two reproducers are enough
+                if not res.violation(obj, fingerprint=FP_DISPLACED):
+                    continue
+            else:
+                stats['hyper_end_problems'] += 1
+                res.violation(obj)
+            stats['violations'] += 1
+        for cid, route, q in qs:
+            queries.append(q)
+            meta.append((sc, d, cid, route, cfg))
+    ans = A.run_driver(drv, queries)
+    for a, (sc, d, cid, route, cfg) in zip(ans, meta):
+        stats['routes'] += 1
+        stats['hyper_routes'] += 1
+        stats['by_config'][cfg] = stats['by_config'].get(cfg, 0) + 1
+        if len(route) > 2:
+            stats['nontrivial'].add(hashlib.sha256(repr((cfg, sc['shapes'], sc['junction'], sc['terms'], cid)).encode()).hexdigest())
+        if len(route) > 2 and sc['opt'] > 0 and not any(x.get('family') == 'hyper' for x in samples):
+            samples.append({'family': 'hyper', 'scene': sc, 'connector': cid, 'ends': d['hends'].get(cid), 'junctions': d.get('juncs'),
+                            'displayRoute': route, 'segs_clear': a})
+        off = A.parse_chk(a)
+        if off:
+            stats['violations'] += 1
+            stats['hyper_crossings'] = stats.get('hyper_crossings', 0) + 1
+            if stats['hyper_crossings'] > 4:
+                continue                                      # four reproducers per run are enough
+            res.violation({'what': 'a hyperedge connector\'s displayRoute passes through the interior of a shape (verified segs_clear over all shapes; '
+                                   'every attachment of the scene is in free space)', 'family': 'hyper', 'config': cfg,
+                           'improvement_option': ['none', 'improveHyperedgeRoutesMovingJunctions', 'improveHyperedgeRoutesMovingAddingAndDeletingJunctions'][sc['opt']],
+                           'segmentPenalty': sc['pen'], 'shapeBufferDistance': sc['buf'], 'idealNudgingDistance': sc['nudge'],
+                           'shapes': sc['shapes'], 'junction': sc['junction'], 'junction_fixed': sc['fixed'], 'terminals': sc['terms'],
+                           'connector': cid, 'ends': d['hends'].get(cid), 'junctions_after': d.get('juncs'), 'displayRoute': route,
+                           'offenders_(segment,shape,degenerate_chord)': off, 'scene': sc, 'script': A.hyper_script(sc),
+                           'replay': './check C03 --replay <this file>  (runs "script" on harness/c03_route.cpp and re-checks every connector)'})
+
+
 def make_case(stream, cfgname, polys, conns, mode, pen, buf, nudge):
     return {'stream': stream, 'cfg': cfgname, 'polys': polys, 'conns': conns, 'mode': mode, 'pen': pen, 'buf': buf, 'nudge': nudge,
             'script': A.scene_script(polys, conns, mode, pen, buf, nudge, 1)}
@@ -178,7 +411,10 @@ def run(tier):
     rng = C.SplitMix64(C.get_seed() ^ 0xC03)
     n_gen, n_deg = (40, 120) if tier == 'quick' else (220, 700)
     stats = {'routes': 0, 'by_config': {}, 'nontrivial': set(), 'bends_hist': {}, 'violations': 0, 'known_degenerate_chord': 0,
-             'no_free_path': 0, 'exceptions': 0, 'corpus': 0}
+             'no_free_path': 0, 'exceptions': 0, 'corpus': 0, 'contains_histories': 0, 'contains_routes': 0, 'contains_endpoint_inside_now': 0,
+             'contains_shape_left_endpoint': 0, 'contains_shape_left_endpoint_bent': 0, 'contains_variants': {},
+             'hyper_scenes': 0, 'hyper_routes': 0, 'hyper_by_kind': {}, 'hyper_junction_moved': 0, 'hyper_topology_changed': 0,
+             'hyper_reversed_routes': 0, 'hyper_end_problems': 0, 'hyper_terminal_displaced': 0, 'hyper_c11_fh_assertion_skipped': 0}
     samples = []
     run_corpus(res, exe, drv, stats)
     cases = []
@@ -195,6 +431,28 @@ def run(tier):
     B = 400
     for i in range(0, len(cases), B):
         check_cases(res, exe, drv, cases[i:i + B], stats, samples)
+    # contains family (histories) and hyperedge family
+    n_cont, n_hyp = (16, 260) if tier == 'quick' else (150, 2500)
+    hists = []
+    for (name, mode, pen, nudge, trans) in CONTAINS_CONFIGS:
+        k = 0
+        while k < n_cont:
+            ops, tags = A.gen_contains_history(rng, rect_only=(mode == 1))
+            if ops is None:
+                continue
+            k += 1
+            for t in tags:
+                stats['contains_variants'][t] = stats['contains_variants'].get(t, 0) + 1
+            hists.append({'cfg': name, 'mode': mode, 'pen': pen, 'nudge': nudge, 'trans': trans, 'ops': ops})
+    for i in range(0, len(hists), 200):
+        check_histories(res, exe, drv, hists[i:i + 200], stats, samples)
+    hscenes = []
+    while len(hscenes) < n_hyp:
+        sc = A.gen_hyper_scene(rng)
+        if sc is not None:
+            hscenes.append(sc)
+    for i in range(0, len(hscenes), 400):
+        check_hyper(res, exe, drv, hscenes[i:i + 400], stats, samples)
     res.cov.update({
         'evaluations': stats['routes'] + stats['corpus'],
         'distinct_nontrivial': len(stats['nontrivial']),
@@ -207,7 +465,25 @@ def run(tier):
         'routes_by_config': stats['by_config'], 'bends_histogram': {str(k): v for k, v in sorted(stats['bends_hist'].items())},
         'no_free_path_cases_skipped': stats['no_free_path'], 'endpoint_in_mitred_buffer_zone_skipped': stats.get('endpoint_in_buffer_zone', 0), 'libavoid_exceptions': stats['exceptions'],
         'known_degenerate_chord_cases': stats['known_degenerate_chord'], 'checker_failures_reported': stats['violations'],
-        'corpus_cases': stats['corpus'], 'exhaustive': False})
+        'corpus_cases': stats['corpus'], 'exhaustive': False,
+        'contains_family': {'what': 'multi-transaction histories: an endpoint strictly inside a shape, the shape moved / resized / deleted away (variants: moved '
+                                    'back over it, another shape moved or added onto it), then a change that recomputes the endpoint\'s visibility; route_ok on the '
+                                    'current scene after every processTransaction; no buffer distance in this family',
+                            'histories': stats['contains_histories'], 'routes_checked': stats['contains_routes'],
+                            'routes_with_an_endpoint_inside_a_shape_now': stats['contains_endpoint_inside_now'],
+                            'routes_after_a_containing_shape_left_the_endpoint': stats['contains_shape_left_endpoint'],
+                            'of_those_with_a_bent_route': stats['contains_shape_left_endpoint_bent'], 'variant_histogram': stats['contains_variants']},
+        'hyperedge_family': {'what': 'free (1 in 4 with nudging: fixed) JunctionRef with 3-5 orthogonal connectors to free terminal points, 1-4 rectangular obstacles; kinds: corridor '
+                                     '(a branch squeezed between two obstacles next to its terminal\'s column while the other branches pull the trunk that way) and '
+                                     'random; improvement option none / MovingJunctions / MovingAddingAndDeletingJunctions; nudging 0 / 4; buffer 0 / 4; 8 symmetries',
+                             'scenes_routed': stats['hyper_scenes'], 'connector_routes_checked': stats['hyper_routes'], 'scenes_by_kind_option_nudging': stats['hyper_by_kind'],
+                             'scenes_whose_junction_was_moved_by_improvement': stats['hyper_junction_moved'],
+                             'scenes_whose_junction_or_connector_set_changed': stats['hyper_topology_changed'],
+                             'reversed_routes_accepted_(C11_hyperedge_route_reversed)': stats['hyper_reversed_routes'],
+                             'scenes_skipped_on_C11_F-h_assertion': stats['hyper_c11_fh_assertion_skipped'],
+                             'connectors_with_displaced_free_terminal_(hyperedge_free_terminal_displaced)': stats['hyper_terminal_displaced'],
+                             'route_end_problems_reported': stats['hyper_end_problems'],
+                             'routes_through_a_shape_interior': stats.get('hyper_crossings', 0)}})
     if not res.violations and not info['ok']:
         res.violation({'what': 'a proof obligation of C03 no longer checks (or cpp2v left the fragment); the search - route_ok on every '
                                'real route of both streams and the corpus - found no route through an obstacle',
@@ -227,6 +503,19 @@ def replay(path):
     d = runs[0]['dumps'][-1]
     polys = [tuple(map(tuple, P)) for P in j['shapes']]
     bad = 0
+    if j.get('family') == 'hyper':
+        sc = j['scene']
+        sc['shapes'] = polys
+        probs, qs = hyper_judge(sc, d)
+        for cid, what, disp in probs:
+            print('connector', cid, what, disp or '')
+            bad += what != 'reversed'
+        for cid, route, q in qs:
+            a = A.run_driver(drv, [q])[0]
+            print('connector', cid, 'ends', d['hends'].get(cid), 'displayRoute', route, '->', a)
+            bad += a != 'ok'
+        print('junctions', d.get('juncs'))
+        return 1 if bad else 0
     for cid, route in sorted(d['disp'].items()):
         s, t = d['ends'][cid]
         a = A.run_driver(drv, [A.q_chk(polys, s, t, route)])[0]
